@@ -182,15 +182,39 @@ func verifApply(e *verifEnv, m *verifModel, op verifOp) {
 			m.wrote(op.key, op.body, nil)
 		}
 	case opCopy:
-		_, err := e.st.CopyObject(verifCtx, e.bucket, key, e.bucket, verifKeys[op.key2], nil)
+		var copts *storage.CopyObjectOptions
+		one, zero := int64(1), int64(0)
+		switch op.rng {
+		case 1: // the last byte
+			copts = &storage.CopyObjectOptions{Range: &storage.ByteRange{End: &one}}
+		case 2: // the first byte
+			copts = &storage.CopyObjectOptions{Range: &storage.ByteRange{Start: &zero, End: &one}}
+		}
+		_, err := e.st.CopyObject(verifCtx, e.bucket, key, e.bucket, verifKeys[op.key2], copts)
 		src := m.keys[op.key]
 		if !m.bucket || !src.exists {
-			verifAssert(err != nil && verifIsAbsent(err, m), "CopyObject of an absent source")
+			verifAssert(err != nil && (op.rng != 0 || verifIsAbsent(err, m)), "CopyObject of an absent source")
+			return
+		}
+		if op.rng != 0 && len(src.body) == 0 {
+			// a byte range of an empty source: either outcome is followed (see opMPPartCopy)
+			if err != nil {
+				return
+			}
+			m.wrote(op.key2, nil, src.ct)
 			return
 		}
 		verifCover("copy")
 		verifAssert(err == nil, "CopyObject failed")
-		m.wrote(op.key2, src.body, src.ct)
+		body := src.body
+		switch op.rng {
+		case 1:
+			verifCover("ranged-copy")
+			body = src.body[len(src.body)-1:]
+		case 2:
+			body = src.body[:1]
+		}
+		m.wrote(op.key2, body, src.ct)
 	case opDelete:
 		_, err := e.st.DeleteObject(verifCtx, e.bucket, key, nil)
 		if !m.bucket {
@@ -381,6 +405,7 @@ func VerifC01History() {
 		case opCopy:
 			op.key = verifPick("key", 0, 1)
 			op.key2 = verifPick("key2", 0, 1)
+			op.rng = verifPick("range", 0, 2)
 		case opDelete:
 			op.key = verifPick("key", 0, 1)
 		case opMPCreate:
